@@ -1145,6 +1145,11 @@ def _init_wrapper(__init__: Callable, frozen: bool, shadow: bool) -> Callable:
             for key, val in kwargs.items():
                 local_setattr(self, key, val)
                 del self.__dict__[key]
+            # fields left at a None default are not in kwargs: the dataclass __init__
+            # stored them in the instance dict, where pickling / indexing lose them
+            for key in self.__expected_keys__:
+                if key in self.__dict__:
+                    local_setattr(self, key, self.__dict__.pop(key))
         if lock:
             self._tensordict.lock_()
 
